@@ -21,6 +21,8 @@ type Ctx struct {
 	S   *scope.Scope
 	R   *report.Result
 	own *own.Analysis
+
+	floads map[*types.Var][]ssa.Value
 }
 
 func NewCtx(p *load.Prog, prop, config string) *Ctx {
